@@ -9,12 +9,13 @@ import textwrap
 
 
 class Cut:
-    def __init__(self, func, ordinal=0):
+    def __init__(self, func, ordinal=0, kind=None):
         self.func = func
         src = textwrap.dedent(inspect.getsource(func))
         tree = ast.parse(src)
         fdef = tree.body[0]
-        loops = [n for n in ast.walk(fdef) if isinstance(n, (ast.While, ast.For))]
+        want = {'While': (ast.While,), 'For': (ast.For,), None: (ast.While, ast.For)}[kind]
+        loops = [n for n in ast.walk(fdef) if isinstance(n, want)]
         loops.sort(key=lambda n: (n.lineno, n.col_offset))
         self.loop = loops[ordinal]
         self.kind = type(self.loop).__name__
@@ -26,6 +27,7 @@ class Cut:
             ex = ast.Expression(self.loop.test)
             ast.fix_missing_locations(ex)
             self.test_code = compile(ex, f'<loop test of {func.__qualname__}>', 'eval')
+        self.fdef = fdef
         # statements before the loop (prefix) at the top level of the function
         self.prefix = [n for n in fdef.body if n.lineno < self.loop.lineno and not isinstance(n, ast.Expr)]
         stores = {n.id for s in self.loop.body for n in ast.walk(s) if isinstance(n, ast.Name) and isinstance(n.ctx, ast.Store)}
@@ -40,3 +42,33 @@ class Cut:
 
     def run_test(self, env):
         return eval(self.test_code, self.func.__globals__, env)
+
+    def _top_index(self):
+        for i, n in enumerate(self.fdef.body):
+            if n is self.loop:
+                return i
+        raise ValueError('loop is not a top-level statement of the function')
+
+    def run_prefix(self, **args):
+        """execute the statements before the loop with the given arguments; returns the locals"""
+        i = self._top_index()
+        body = [n for n in self.fdef.body[:i]] + [ast.parse('return locals()').body[0].value and
+                                                   ast.Return(value=ast.Call(func=ast.Name(id='locals', ctx=ast.Load()),
+                                                                             args=[], keywords=[]))]
+        return self._call('__prefix__', body, args)
+
+    def run_suffix(self, env):
+        """execute the statements after the loop from the given local state; returns the function's result"""
+        i = self._top_index()
+        return self._call('__suffix__', list(self.fdef.body[i + 1:]), env)
+
+    def _call(self, name, body, env):
+        names = sorted(env)
+        fd = ast.FunctionDef(name=name, args=ast.arguments(posonlyargs=[], args=[ast.arg(arg=n) for n in names],
+                                                           kwonlyargs=[], kw_defaults=[], defaults=[]),
+                             body=body or [ast.Pass()], decorator_list=[], type_params=[])
+        mod = ast.Module(body=[fd], type_ignores=[])
+        ast.fix_missing_locations(mod)
+        ns = {}
+        exec(compile(mod, f'<{name} of {self.func.__qualname__}>', 'exec'), self.func.__globals__, ns)
+        return ns[name](**{n: env[n] for n in names})
